@@ -34,7 +34,7 @@ CHECKS = {
  "C02": dict(
    technique="bounded model checking of the real node decoder: Kani 0.68 -> CBMC 6.11 over #[kani::proof] harnesses, one per node class, bytes/length/position symbolic",
    category="model_checking",
-   text="Layer 1 only: SAT-decided totality of bit_encoding::decode::decode_node (reached through the verif-hooks) - for every byte string after the class's code bits, every length and every position it never panics or overflows and every child reference points strictly backwards. Quick: classes without back references (iden/unit, fail + 64 entropy bytes, witness, hidden + CMR, jets); thorough adds the classes whose references go through the real read_natural. The program-level clauses of C02 (canonical order, sharing, hidden-node repetition, trailing bytes/padding, re-encoding equality) are NOT covered: the program-level decoder is out of CBMC's reach (DESIGN.md 1.4).",
+   text="Layer 1 only: SAT-decided totality of bit_encoding::decode::decode_node (reached through the verif-hooks) - for every byte string after the class's code bits, every length and every position it never panics or overflows and every child reference points strictly backwards. Quick: classes without back references (iden/unit, fail + 64 entropy bytes, witness, hidden + CMR, jets) and the one-reference classes (unary, disconnect1, word) through the real read_natural with references < 16 and word length fields 32..63; thorough widens the references to < 2^16 (5-byte strings). The program-level clauses of C02 (canonical order, sharing, hidden-node repetition, trailing bytes/padding, re-encoding equality) are NOT covered: the program-level decoder is out of CBMC's reach (DESIGN.md 1.4).",
    design_ref="DESIGN.md §2 C01/C02",
    note="trusted: Kani/CBMC; Word::from_bits replaced by a model; two-jet stand-in family; Merkle-root and precomputed-type stubs. Outside: everything above a single node; BitIter::close (C13)"),
  "C10": dict(
